@@ -212,6 +212,8 @@ unsafe fn ntt_negate_assign_avx2(n: usize, res: &mut [u64]) {
 impl NttDFTExecute<NttTable<Primes30>> for NTT120Avx {
     #[inline(always)]
     fn ntt_dft_execute(table: &NttTable<Primes30>, data: &mut [u64]) {
+        // The AVX butterflies walk `table.n` q120b coefficients (4 u64 each) of `data` through raw pointers.
+        assert_eq!(data.len(), 4 * table.n, "data.len(): {} != 4 * table.n: {}", data.len(), 4 * table.n);
         // SAFETY: NTT120Avx::new() verifies AVX2 availability at construction time.
         unsafe { ntt_avx2::<Primes30>(table, data) }
     }
@@ -220,6 +222,8 @@ impl NttDFTExecute<NttTable<Primes30>> for NTT120Avx {
 impl NttDFTExecute<NttTableInv<Primes30>> for NTT120Avx {
     #[inline(always)]
     fn ntt_dft_execute(table: &NttTableInv<Primes30>, data: &mut [u64]) {
+        // The AVX butterflies walk `table.n` q120b coefficients (4 u64 each) of `data` through raw pointers.
+        assert_eq!(data.len(), 4 * table.n, "data.len(): {} != 4 * table.n: {}", data.len(), 4 * table.n);
         // SAFETY: NTT120Avx::new() verifies AVX2 availability at construction time.
         unsafe { intt_avx2::<Primes30>(table, data) }
     }
@@ -232,12 +236,14 @@ impl NttDFTExecute<NttTableInv<Primes30>> for NTT120Avx {
 impl NttFromZnx64 for NTT120Avx {
     #[inline(always)]
     fn ntt_from_znx64(res: &mut [u64], a: &[i64]) {
+        assert_eq!(res.len(), 4 * a.len(), "res.len(): {} != 4 * a.len(): {}", res.len(), 4 * a.len());
         // SAFETY: NTT120Avx::new() verifies AVX2 availability at construction time.
         unsafe { b_from_znx64_avx2(a.len(), res, a) }
     }
 
     #[inline(always)]
     fn ntt_from_znx64_masked(res: &mut [u64], a: &[i64], mask: i64) {
+        assert_eq!(res.len(), 4 * a.len(), "res.len(): {} != 4 * a.len(): {}", res.len(), 4 * a.len());
         // SAFETY: NTT120Avx::new() verifies AVX2 availability at construction time.
         unsafe { b_from_znx64_masked_avx2(a.len(), res, a, mask) }
     }
@@ -258,6 +264,8 @@ impl NttToZnx128 for NTT120Avx {
 impl NttAdd for NTT120Avx {
     #[inline(always)]
     fn ntt_add(res: &mut [u64], a: &[u64], b: &[u64]) {
+        assert_eq!(a.len(), res.len(), "a.len(): {} != res.len(): {}", a.len(), res.len());
+        assert_eq!(b.len(), res.len(), "b.len(): {} != res.len(): {}", b.len(), res.len());
         // SAFETY: NTT120Avx::new() verifies AVX2 availability at construction time.
         unsafe { ntt_add_avx2(res.len() / 4, res, a, b) }
     }
@@ -266,6 +274,7 @@ impl NttAdd for NTT120Avx {
 impl NttAddAssign for NTT120Avx {
     #[inline(always)]
     fn ntt_add_assign(res: &mut [u64], a: &[u64]) {
+        assert_eq!(a.len(), res.len(), "a.len(): {} != res.len(): {}", a.len(), res.len());
         // SAFETY: NTT120Avx::new() verifies AVX2 availability at construction time.
         unsafe { ntt_add_assign_avx2(res.len() / 4, res, a) }
     }
@@ -274,6 +283,8 @@ impl NttAddAssign for NTT120Avx {
 impl NttSub for NTT120Avx {
     #[inline(always)]
     fn ntt_sub(res: &mut [u64], a: &[u64], b: &[u64]) {
+        assert_eq!(a.len(), res.len(), "a.len(): {} != res.len(): {}", a.len(), res.len());
+        assert_eq!(b.len(), res.len(), "b.len(): {} != res.len(): {}", b.len(), res.len());
         // SAFETY: NTT120Avx::new() verifies AVX2 availability at construction time.
         unsafe { ntt_sub_avx2(res.len() / 4, res, a, b) }
     }
@@ -282,6 +293,7 @@ impl NttSub for NTT120Avx {
 impl NttSubAssign for NTT120Avx {
     #[inline(always)]
     fn ntt_sub_assign(res: &mut [u64], a: &[u64]) {
+        assert_eq!(a.len(), res.len(), "a.len(): {} != res.len(): {}", a.len(), res.len());
         // SAFETY: NTT120Avx::new() verifies AVX2 availability at construction time.
         unsafe { ntt_sub_assign_avx2(res.len() / 4, res, a) }
     }
@@ -290,6 +302,7 @@ impl NttSubAssign for NTT120Avx {
 impl NttSubNegateAssign for NTT120Avx {
     #[inline(always)]
     fn ntt_sub_negate_assign(res: &mut [u64], a: &[u64]) {
+        assert_eq!(a.len(), res.len(), "a.len(): {} != res.len(): {}", a.len(), res.len());
         // SAFETY: NTT120Avx::new() verifies AVX2 availability at construction time.
         unsafe { ntt_sub_negate_assign_avx2(res.len() / 4, res, a) }
     }
@@ -298,6 +311,7 @@ impl NttSubNegateAssign for NTT120Avx {
 impl NttNegate for NTT120Avx {
     #[inline(always)]
     fn ntt_negate(res: &mut [u64], a: &[u64]) {
+        assert_eq!(a.len(), res.len(), "a.len(): {} != res.len(): {}", a.len(), res.len());
         // SAFETY: NTT120Avx::new() verifies AVX2 availability at construction time.
         unsafe { ntt_negate_avx2(res.len() / 4, res, a) }
     }
